@@ -2,6 +2,7 @@ import NumbersModel.Drv.A1
 import NumbersModel.Drv.Tokenizer
 import NumbersModel.Drv.Items
 import NumbersModel.Drv.Addressing
+import NumbersModel.Drv.Csv
 
 open NumbersModel.Drv
 
@@ -12,6 +13,7 @@ def dispatch (line : String) : String :=
     | "tok" :: rest => handleTok rest
     | "items" :: rest => handleItems rest
     | "addr" :: rest => handleAddr rest
+    | "csv" :: rest => handleCsv rest
     | _ => none
   match r with
   | some s => s
